@@ -443,3 +443,18 @@ func (k *Kernel) cleanupSandbox() {
 		_ = os.RemoveAll(k.sandbox)
 	}
 }
+
+// SandboxDir is the real directory backing the os.* seams of this run ("" if nothing was created).
+func (k *Kernel) SandboxDir() string {
+	if k.sandbox == "" {
+		return "/nonexistent-sandbox/"
+	}
+	return k.sandbox
+}
+
+// OpsSnapshot returns a copy of the operation log.
+func (fs *FS) OpsSnapshot() []FsOp {
+	fs.mu.Lock()
+	defer fs.mu.Unlock()
+	return append([]FsOp(nil), fs.Ops...)
+}
